@@ -141,6 +141,7 @@ fn plan_c01(thorough: bool) -> Plan {
     }
     cases.extend(pfx_family("values"));
     cases.extend(cache_pressure_family("values", thorough));
+    cases.extend(cold_leaf_insert_family("values", if thorough { 3 } else { 2 }));
     // a run of empty values between two large ones in one leaf: every commit of ≤4 actions that
     // inserts before the leaf / rewrites its ends (splits whose split point falls in front of the
     // kept cells), then one of the empties deleted; every seed key audited
@@ -188,7 +189,7 @@ fn plan_c01(thorough: bool) -> Plan {
     sort_by_bound(&mut cases);
     let mut p = Plan::new(
         cases,
-        "histx: every history of D commits whose batches deviate from the empty batch in at most B key actions (bound = number of deviations), over colliding key universes, from seed states {empty, leaf(6x1300B), branch(600 keys sharing 30 bytes), bulk(1500 keys), ovf(5MiB value), ovf2(two 70000-byte and one 61381-byte value), mixed2(700 clustered + 60 scattered keys), pfx(450 keys sharing 247 bits + 3 far keys: a branch node built with stopped prefix compression; macro action 'delete a run of 100..400 cluster keys' + in-place rewrite of a far key, every seed key audited); queue-shaped workloads on wide / branch (the lowest keys deleted in runs of 1..7 while a far leaf is rewritten, three commits, every seed key audited)}; action alphabet = read, delete, read-then-delete, write of sizes {0,1,1332,1333,5000,61380,61381,70000}, read-then-write; reopen inserted at every position for a sub-family; after every commit Nomt::read and Session::read of every universe key are compared with a BTreeMap model. Non-trivial = at least one write was committed; distinct = distinct (case, final-state digest).",
+        "histx: every history of D commits whose batches deviate from the empty batch in at most B key actions (bound = number of deviations), over colliding key universes, from seed states {empty, leaf(6x1300B), branch(600 keys sharing 30 bytes), bulk(1500 keys), ovf(5MiB value), ovf2(two 70000-byte and one 61381-byte value), mixed2(700 clustered + 60 scattered keys), pfx(450 keys sharing 247 bits + 3 far keys: a branch node built with stopped prefix compression; macro action 'delete a run of 100..400 cluster keys' + in-place rewrite of a far key, every seed key audited); queue-shaped workloads on wide / branch (the lowest keys deleted in runs of 1..7 while a far leaf is rewritten, three commits, every seed key audited); one commit right after a cold reopen mixing reads / rewrites / deletes in the first of two leaves with inserts of new keys below, between and above everything on disk (rollback off, leaf cache 0 / 4 MiB, 1 / 3 workers: the leaf stage finds some leaves cached and fetches the others)}; action alphabet = read, delete, read-then-delete, write of sizes {0,1,1332,1333,5000,61380,61381,70000}, read-then-write; reopen inserted at every position for a sub-family; after every commit Nomt::read and Session::read of every universe key are compared with a BTreeMap model. Non-trivial = at least one write was committed; distinct = distinct (case, final-state digest).",
     );
     p.budget_s = if thorough { 1500 } else { 55 };
     p.assumptions = vec![
@@ -465,6 +466,12 @@ pub fn crash_histories(thorough: bool) -> Vec<(Value, usize, u64)> {
         (vec![c(vec![w(0, 70000)]), c(vec![del(0), w(1, 1)])], 1),
         (vec![c(vec![w(0, 70000), w(1, 1333)]), json!({"rb": 1})], 1),
         (vec![c(vec![w(0, 1)]), c(vec![w(0, 2)]), json!({"reopen": {}}), json!({"rb": 1})], 3),
+        // two records per segment: a rollback whose new end is exactly the last record of the
+        // earlier segment file, then a commit on the same handle (the head-segment writer must
+        // continue behind that record, not at the start of the file)
+        (vec![c(vec![w(0, 1)]), c(vec![w(1, 1)]), c(vec![w(2, 1)]), json!({"rb": 1}), c(vec![w(3, 1)])], 4),
+        (vec![c(vec![w(0, 1)]), c(vec![w(1, 1)]), c(vec![w(2, 1)]), c(vec![w(3, 1)]), json!({"rb": 2}), c(vec![w(0, 2)])], 5),
+        (vec![c(vec![w(0, 1)]), c(vec![w(1, 1)]), c(vec![w(2, 1)]), json!({"rb": 1}), json!({"rb": 1})], 4),
     ];
     for (ops, t) in ex {
         out.push((hist("empty", u4.clone(), &cfg, ops), t, 3));
@@ -822,6 +829,36 @@ fn fault_plan(thorough: bool) -> Plan {
 /// after every commit (so the cache is over budget when the next commit starts), commits that
 /// rewrite leaves in place: the page freed by one commit is re-used by the next one while the cache
 /// still holds the leaf that used to live there.
+
+/// Right after a cold reopen (nothing read back) ONE commit whose batch mixes reads, rewrites and
+/// deletes of keys in the first of two value leaves with inserts of new keys below, between and
+/// above everything on disk (their merkle terminals are terminators of the stored root page, so the
+/// session's seek does not fetch the value leaf they go to): the value-tree leaf stage then finds
+/// some of its leaves cached (by the session's reads) and has to fetch the others. Rollback off
+/// (the reverse-delta worker would fetch the prior values, and with them every leaf), leaf cache
+/// 0 and 4 MiB, 1 and 3 workers, and a forgetful leaf cache (lookups of leaves with an odd / even
+/// page number always miss; every second lookup misses).
+pub fn cold_leaf_insert_family(audit: &str, b: usize) -> Vec<Value> {
+    let a = acts(&[("r", None), ("w", Some(5)), ("w", Some(1300)), ("d", None)]);
+    let mut cases = vec![];
+    for (leaf_cache, cc, amnesia) in [(0usize, 1usize, 0u8), (4, 1, 1), (4, 1, 2), (0, 3, 3)] {
+        let mut cfg = cfg_small();
+        cfg.leaf_cache = leaf_cache;
+        cfg.cc = cc;
+        cfg.rollback = false;
+        cfg.leaf_amnesia = amnesia;
+        let mut cs = enum_commit_histories(1, 7, b, &a, &mk_case("leaf", vec!["seed:0,1,4,5", "SUB:U1:0,2,5"], &cfg, audit, true));
+        for c in cs.iter_mut() {
+            let mut ops = vec![json!({"reopen": {"cold": true}})];
+            ops.extend(c["ops"].as_array().unwrap().iter().cloned());
+            c["ops"] = Value::Array(ops);
+            c["quiet"] = json!(true);
+        }
+        cases.extend(cs);
+    }
+    cases
+}
+
 pub fn cache_pressure_family(audit: &str, thorough: bool) -> Vec<Value> {
     let mut cfg = cfg_small();
     cfg.leaf_cache = 1;
